@@ -182,7 +182,7 @@ all_regex = re.compile(r"\b(?P<all>ALL)(?P<context>.{1,6})?", re.IGNORECASE)
 # Must be at word boundaries, per \b.
 half_plus_q_regex = re.compile(
     fr"""
-    ((?<=½)|(?<=\b))                # Lookbehind of word boundary or '½' 
+    ((?<=½)|(?<=¼)|(?<=\b))         # Lookbehind of word boundary or '½' or '¼'
     (?P<half_aliquot>[NESW]½)       # Which aliquot half.
     
     (
